@@ -834,12 +834,19 @@ func C18(tier string) *engine.Report {
 		d.Budget = 25 * time.Minute
 	}
 	tot.Add(d.Run(), rep)
+	// failures before there is a response: the dial, or (wss) the TLS session
+	fres := c18DialFailDFS(tier).Run()
+	tot.Add(fres, rep)
+	rep.Coverage["dial_failures"] = map[string]any{"executions": fres.Executions, "finished": fres.Exhaustive, "violations": len(fres.Violations)}
 	tot.Fill(rep, "blocking/async x 54 response variants (full product of status x Upgrade x accept; Connection as a token list in either order, lower-case, or absent; near misses of the accept value: case-swapped, lower-cased, truncated, suffixed; header orders, letter cases, optional whitespace around the conforming response) x 0/1/2 piggy-backed frames; deviations: every single cut of response+frames, a second cut on a grid of 8, server close after the first segment, a preceding session on the same stream (failed handshake; dropped with half a frame unread / a pong or a Close(1002) queued but never flushed / a failed write), a free choice for the conforming response; after every upgrade the server must receive exactly the first message the application writes; "+
-		"the raw server is lock-stepped with the client through SIOCOUTQ/FIONREAD; every case is a real TCP handshake", d.MaxDeviations)
+		"plus ws:// and wss:// against a port nobody listens on / a peer that closes at once / a peer that sends garbage, blocking and async, twice in a row (error, terminated, no panic, census unchanged); the raw server is lock-stepped with the client through SIOCOUTQ/FIONREAD; every case is a real TCP handshake", d.MaxDeviations)
 	rep.Assumptions = append(rep.Assumptions, "SIOCOUTQ==0 on the server socket and FIONREAD==0 on the client socket mean the client has consumed the segment")
 	return rep
 }
 
 func C18Replay(v engine.Violation, log func(string)) *engine.Violation {
+	if strings.HasPrefix(v.Config, "dialfail@") {
+		return c18DialFailDFS(v.Config[len("dialfail@"):]).ReplayChoices(v.Choices)
+	}
 	return c18DFS(v.Config[10:]).ReplayChoices(v.Choices)
 }
